@@ -107,7 +107,7 @@ PINNED = {
     "shares/manager.py:SharesManager:remove_shared_directory": "f0a66dfaccc9d2d7",
     "shares/manager.py:SharesManager:_move_items": "911d1b2a9cadd82a",
     "shares/manager.py:SharesManager:update_shared_directory": "d08bd0563a0ba7c4",
-    "shares/manager.py:SharesManager:load_from_settings": "c88fe8076266ad0e",
+    "shares/manager.py:SharesManager:load_from_settings": "bd170cedee218822",
     "shares/manager.py:SharesManager:rebuild_term_map": "1f5434051d761149",
     "shares/manager.py:SharesManager:_build_term_map": "9e64ed31ae6fd85e",
     "shares/manager.py:SharesManager:_add_item_to_term_map": "24f9657d1172fedc",
